@@ -3,11 +3,11 @@ have independent limits.
 
 Two layers, both on ``vlib.h_async.SymLoop`` with symbolic start instants and symbolic body durations:
 
-* ``ob_gated_*`` (quick + thorough): the REAL ``BasicRuntime.run_workflow`` / ``_maybe_acquire_max_concurrent_runs``
-  create the run tasks and the per-instance semaphore; only the registered run function is replaced - through the
-  public ``Runtime.register`` hook - by a gated body (enter, sleep(h), leave), so a path costs ~0.2 s instead of ~3 s.
-* ``ob_whole_runs`` (thorough; a 2-run instance in quick): the REAL ``Workflow.run()`` -> ``BasicRuntime.run_workflow``
-  -> control loop -> step worker, one-step workflow whose step body is the gated body."""
+* ``ob_acquire_*`` (quick + thorough): run tasks enter a gated body (enter, sleep(h), leave) through the REAL
+  ``BasicRuntime._maybe_acquire_max_concurrent_runs`` of a fresh ``BasicRuntime`` - the function that owns the
+  per-instance semaphore table (a path costs ~0.2 s).
+* ``ob_whole_runs`` (thorough only: ~5-15 s per path): the REAL ``Workflow.run()`` -> ``BasicRuntime.run_workflow`` ->
+  control loop -> step worker of a one-step workflow whose step body is the gated body."""
 from __future__ import annotations
 
 import vlib.boot  # noqa: F401
@@ -15,6 +15,7 @@ from vlib.boot import B
 from vlib.ob import obligation
 
 import asyncio
+import types
 
 from vlib.h_async import FakeTimeModule, SymLoop, reraise_foreign
 
@@ -22,8 +23,6 @@ import workflows.plugins.basic as basic
 from workflows import Workflow, step
 from workflows.events import StartEvent, StopEvent
 from workflows.plugins.basic import BasicRuntime
-from workflows.runtime.types.internal_state import BrokerState
-from workflows.runtime.types.plugin import RegisteredWorkflow
 
 ENCODED = [
     "workflows.plugins.basic:BasicRuntime._maybe_acquire_max_concurrent_runs",
@@ -35,8 +34,8 @@ ENCODED = [
 ]
 ASSUMES = [
     "event loop = vlib.h_async.SymLoop; nondeterminism = symbolic start instant and symbolic body duration per run",
-    "gated obligations: Runtime.register (public hook) returns the real RegisteredWorkflow record whose workflow_run_fn "
-    "is a gated body; everything else of run_workflow (state store, queues, task, semaphore) is the real code",
+    "ob_acquire_*: the workflow argument is a duck-typed object (the function reads only `_num_concurrent_runs` and "
+    "id(workflow)); the limit is concretised by explicit forks before the Semaphore is built",
     "whole-run obligation: time.monotonic in workflows.plugins.basic reads the virtual clock (module attribute patched, "
     "restored in finally); workflow timeout=None; explicit run_id; fresh BasicRuntime per scenario",
     "'not delayed' for the second instance: a run of instance B that finds fewer than its own limit of B-runs active "
@@ -67,23 +66,22 @@ def _judge(obs: _Obs, limits, inst, starts, n) -> bool:
     return True
 
 
-def _gated_scenario(limits, inst, starts, holds) -> bool:
+def _acquire_scenario(limits, inst, starts, holds) -> bool:
+    """Run tasks go through the REAL BasicRuntime._maybe_acquire_max_concurrent_runs around a gated body."""
     n = len(inst)
     loop = SymLoop()
     obs = _Obs(n)
 
-    class W(Workflow):
-        @step
-        async def work(self, ev: StartEvent) -> StopEvent:
-            return StopEvent()
+    async def main():
+        rt = BasicRuntime()
+        # only `_num_concurrent_runs` and the identity of the workflow object are read by the code under test
+        wfs = [types.SimpleNamespace(_num_concurrent_runs=limits[0]), types.SimpleNamespace(_num_concurrent_runs=limits[1])]
 
-    class GatedRuntime(BasicRuntime):
-        def register(self, workflow):
-            real = super().register(workflow)
-
-            async def gated_run(init_state, start_event=None, tags=None):
-                i = start_event.idx
-                k = inst[i]
+        async def one(i):
+            await asyncio.sleep(starts[i])
+            k = inst[i]
+            obs.free_at_start[i] = obs.inside[k] < limits[k]
+            async with rt._maybe_acquire_max_concurrent_runs(wfs[k], "r%d" % i):
                 obs.inside[k] += 1
                 if obs.inside[k] > obs.peak[k]:
                     obs.peak[k] = obs.inside[k]
@@ -93,27 +91,14 @@ def _gated_scenario(limits, inst, starts, holds) -> bool:
                 finally:
                     obs.inside[k] -= 1
                 obs.done[i] = True
-                return StopEvent(result=i)
-
-            return RegisteredWorkflow(workflow=real.workflow, workflow_run_fn=gated_run, steps=real.steps)
-
-    async def main():
-        rt = GatedRuntime()
-        wfs = [W(timeout=None, num_concurrent_runs=limits[0], runtime=rt), W(timeout=None, num_concurrent_runs=limits[1], runtime=rt)]
-        states = [BrokerState.from_workflow(w) for w in wfs]
-
-        async def one(i):
-            await asyncio.sleep(starts[i])
-            k = inst[i]
-            obs.free_at_start[i] = obs.inside[k] < limits[k]
-            ext = rt.run_workflow("r%d" % i, wfs[k], states[k], StartEvent(idx=i))
-            return await ext.get_result()
 
         res = await asyncio.gather(*[asyncio.ensure_future(one(i)) for i in range(n)], return_exceptions=True)
         reraise_foreign(res)
         for r in res:
             if isinstance(r, BaseException):
                 raise r
+        if len(rt._max_concurrent_runs) > 2:
+            raise AssertionError("more semaphores than workflow instances")
 
     loop.run_until_complete(main())
     return _judge(obs, limits, inst, starts, n)
@@ -168,19 +153,69 @@ def _whole_scenario(limits, inst, starts, holds) -> bool:
     return _judge(obs, limits, inst, starts, n)
 
 
-SG = B(2, 2)
-HG = B(2, 2)
+def _lim(n):
+    """Concretise the limit by explicit forks (a symbolic Semaphore counter would cost a solver call per operation)."""
+    if n == 1:
+        return 1
+    if n == 2:
+        return 2
+    if n == 3:
+        return 3
+    return 4
 
 
-@obligation(quick=150, thorough=500,
-            partitions_quick=[f"n == {n}" for n in (1, 2, 3)], partitions_thorough=[f"n == {n} and nb == {b}" for n in (1, 2, 3) for b in (1, 2)],
-            what="gated bodies: 3 runs of instance A (limit n) + 1 run of instance B (limit nb), symbolic start / duration",
-            bounds={"N": "1..3", "runs of A": 3, "runs of B": 1, "start": "0..SG", "hold": "0..HG"})
-def ob_gated_3plus1(n: int, nb: int, s0: int, s1: int, s2: int, s3: int, h0: int, h1: int, h2: int, h3: int) -> bool:
+SA = B(1, 2)
+HA = B(2, 2)
+
+
+@obligation(quick=200, thorough=600, partitions_quick=[f"n == {n}" for n in (1, 2, 3)],
+            partitions_thorough=[f"n == {n} and s0 == {a}" for n in (1, 2, 3) for a in (0, 1, 2)],
+            what="direct semaphore path: 3 runs of one instance (limit n), symbolic start / duration",
+            bounds={"N": "1..3", "runs of A": 3, "start": "0..SA", "hold": "0..HA"})
+def ob_acquire_3(n: int, s0: int, s1: int, s2: int, h0: int, h1: int, h2: int) -> bool:
     """
-    pre: 1 <= n <= 3 and 1 <= nb <= 2
-    pre: 0 <= s0 <= SG and 0 <= s1 <= SG and 0 <= s2 <= SG and 0 <= s3 <= SG
-    pre: 0 <= h0 <= HG and 0 <= h1 <= HG and 0 <= h2 <= HG and 0 <= h3 <= HG
+    pre: 1 <= n <= 3
+    pre: 0 <= s0 <= SA and 0 <= s1 <= SA and 0 <= s2 <= SA and 0 <= h0 <= HA and 0 <= h1 <= HA and 0 <= h2 <= HA
     post: _
     """
-    return _gated_scenario([n, nb], [0, 0, 0, 1], [s0, s1, s2, s3], [h0, h1, h2, h3])
+    return _acquire_scenario([_lim(n), 1], [0, 0, 0], [s0, s1, s2], [h0, h1, h2])
+
+
+@obligation(quick=200, thorough=600, partitions_quick=[f"n == {n} and nb == {b}" for n in (1, 2) for b in (1, 2)],
+            partitions_thorough=[f"n == {n} and nb == {b} and s2 == {c}" for n in (1, 2) for b in (1, 2) for c in (0, 1, 2)],
+            what="direct semaphore path: 2 runs of instance A (limit n) + 1 run of instance B (limit nb): independence of instances",
+            bounds={"N": "1..2", "runs of A": 2, "runs of B": 1, "start": "0..SA", "hold": "0..HA"})
+def ob_acquire_2plus1(n: int, nb: int, s0: int, s1: int, s2: int, h0: int, h1: int, h2: int) -> bool:
+    """
+    pre: 1 <= n <= 2 and 1 <= nb <= 2
+    pre: 0 <= s0 <= SA and 0 <= s1 <= SA and 0 <= s2 <= SA and 0 <= h0 <= HA and 0 <= h1 <= HA and 0 <= h2 <= HA
+    post: _
+    """
+    return _acquire_scenario([_lim(n), _lim(nb)], [0, 0, 1], [s0, s1, s2], [h0, h1, h2])
+
+
+_P42 = [f"n == {n} and s1 == {a} and s3 == {b} and s5 == {c}" for n in (1, 2, 3) for a in (0, 1) for b in (0, 1) for c in (0, 1)]
+
+
+@obligation(quick=None, thorough=700, partitions_thorough=_P42,
+            what="direct semaphore path: 4 runs of instance A (limit n) + 2 runs of instance B (limit 1); starts 0/1, durations symbolic",
+            bounds={"N": "1..3", "runs of A": 4, "runs of B": 2, "start": "0..1 (A0, A2, B0 at 0)", "hold": "0..1, 1..2 for A0"})
+def ob_acquire_4plus2(n: int, s1: int, s3: int, s5: int, h0: int, h1: int, h2: int, h3: int, h4: int) -> bool:
+    """
+    pre: 1 <= n <= 3 and 0 <= s1 <= 1 and 0 <= s3 <= 1 and 0 <= s5 <= 1
+    pre: 1 <= h0 <= 2 and 0 <= h1 <= 1 and 0 <= h2 <= 1 and 0 <= h3 <= 1 and 0 <= h4 <= 1
+    post: _
+    """
+    return _acquire_scenario([_lim(n), 1], [0, 0, 0, 0, 1, 1], [0, s1, 0, s3, 0, s5], [h0, h1, h2, h3, h4, 1])
+
+
+@obligation(quick=None, thorough=800, partitions_thorough=[f"n == {n} and s1 == {a}" for n in (1, 2) for a in (0, 1)],
+            what="whole runs (real Workflow.run -> BasicRuntime.run_workflow -> control loop -> step): 2 runs of instance A "
+                 "(limit n) + 1 run of instance B (limit 1); step bodies gated",
+            bounds={"N": "1..2", "runs of A": 2, "runs of B": 1, "start": "0..1", "hold": "0..1"})
+def ob_whole_runs(n: int, s1: int, s2: int, h0: int, h1: int) -> bool:
+    """
+    pre: 1 <= n <= 2 and 0 <= s1 <= 1 and 0 <= s2 <= 1 and 0 <= h0 <= 1 and 0 <= h1 <= 1
+    post: _
+    """
+    return _whole_scenario([_lim(n), 1], [0, 0, 1], [0, s1, s2], [h0, h1, 0])
